@@ -148,6 +148,16 @@ pub fn constructs(thorough: bool) -> Vec<Construct> {
     v.push(stmt_c("closure-in-array", 1, |o| format!("arr := [(q: any) -> any {{ return {} }}]; return arr[0](1);", o[0])));
     v.push(stmt_c("closure-in-tuple", 1, |o| format!("t := ((q: any) -> any {{ return {} }}, 1); return t.0(t.1);", o[0])));
     v.push(stmt_c("closure-typed-result", 1, |o| format!("h := ((q: int) -> int {{ return q }}); r := h(1); return ({}, r);", o[0])));
+    // exits inside a function that is itself inside a loop belong to the function, not to the loop
+    v.push(stmt_c("break-in-fn-in-loop", 1, |o| {
+        format!("r := mut [any] []; loop {{ h := () -> any {{ if true {{ break }}; return {} }}; r += [h()]; break }}; return *r;", o[0])
+    }));
+    v.push(stmt_c("continue-in-fn-in-for", 1, |o| {
+        format!("r := mut [any] []; for e in [1]~ {{ h := () -> any {{ if true {{ continue }}; return {} }}; r += [h()] }}; return *r;", o[0])
+    }));
+    v.push(stmt_c("fn-in-loop", 1, |o| {
+        format!("r := mut [any] []; loop {{ h := () -> any {{ loop {{ break }}; return {} }}; r += [h()]; break }}; return *r;", o[0])
+    }));
     // binders that shadow an operand: outside the bound body the outer operand is meant
     for t in palette::position_types() {
         let ts = t.print();
